@@ -245,6 +245,31 @@ func c13Run(r *mon.Run) {
 			c13Grammar(r, s)
 		}
 	}
+	// (1b) order of calls: a parse must not depend on what the previous call was given. Every kind of refusal
+	// (grammar, exponent beyond the resource bound, empty, foreign bytes) is followed by fully judged parses.
+	{
+		rejectors := []string{"1e1000001", "1E-99999999999999999999", "1.5e+1000001", "-12e99999999999999999999", "1e18446744073709551617", "1.", "1e", "1e+", "1e5+", "abc", "", "-", "--1", "1..2", "1x", "+1", ".5", "01", "0e0",
+			"123456789012345678901234567890e1000001"}
+		canaries := []string{"7", "0", "12345", "-12345", "250.75", "-0.5", "1e3", "1.5E-2", "10", "0.001", "-0", "9", "1E+2", "100", "0.10"}
+		idx := 0
+		for _, rej := range rejectors {
+			for i, c := range canaries {
+				if r.Mine(idx) {
+					mon.Guard(func() { _, _ = ljson.NewNumber(cbytes.NewBytes(rej)) })
+					na, ok := c13Grammar(r, c)
+					mon.Guard(func() { _, _ = ljson.NewNumber(cbytes.NewBytes(rej)) })
+					c2 := canaries[(i+1)%len(canaries)]
+					nb, ok2 := c13Grammar(r, c2)
+					if ok && ok2 {
+						c13Pair(r, c, c2, na, nb)
+					}
+					r.Nontrivial("h", rej, c)
+					r.Count("parses_judged_right_after_a_refusal", 2)
+				}
+				idx++
+			}
+		}
+	}
 	// (2) all ordered pairs from the accepted strings up to length P over a smaller alphabet
 	var small []string
 	P := r.Pick(5, 5)
@@ -276,6 +301,11 @@ func c13Run(r *mon.Run) {
 	rng := r.Rand("c13")
 	n := r.Share(r.Pick(200_000, 4_000_000))
 	for i := 0; i < n; i++ {
+		if rng.IntN(50) == 0 { // perturb the history with a refusal for the exponent bound
+			huge := "1" + randDigits(rng, rng.IntN(5)) + "e" + []string{"", "+", "-"}[rng.IntN(3)] + "1" + randDigits(rng, 7+rng.IntN(14))
+			mon.Guard(func() { _, _ = ljson.NewNumber(cbytes.NewBytes(huge)) })
+			r.Count("random_history_perturbations", 1)
+		}
 		a := randNumber(rng, 3000)
 		na, ok := c13Grammar(r, a)
 		if !ok {
@@ -323,7 +353,7 @@ func init() {
 				c13Pair(r, c.A, c.B, na, nb)
 			}
 		},
-		Rule:               "grammar: every string over {0 1 9 - + . e E x} up to length 7 (quick) / 9 (thorough) is given to NewNumber and compared with the RFC 8259 number regex; for accepted strings String() must be a plain numeral denoting the same exact decimal and LengthOfFractionalPart() the number of significant fraction digits. comparison: all ordered pairs of the grammatical strings of length <= 5 over {0 1 9 - . e E +}, plus random pairs with up to 46 mantissa digits and exponents up to 3000 (equal-by-shift, last-digit neighbours, unrelated), each compared both ways: Cmp/Equal/GT/GTE/LT/LTE vs exact decimal comparison (cross-checked with math/big.Rat for small exponents). distinct_nontrivial = distinct strings and pairs (hashed).",
+		Rule:               "grammar: every string over {0 1 9 - + . e E x} up to length 7 (quick) / 9 (thorough) is given to NewNumber and compared with the RFC 8259 number regex; for accepted strings String() must be a plain numeral denoting the same exact decimal and LengthOfFractionalPart() the number of significant fraction digits. order of calls: each of 20 refused texts (grammar, exponent beyond the resource bound, empty, foreign bytes) is followed by fully judged parses of 15 plain numbers, and one random pair in 50 is preceded by a refused huge-exponent text. comparison: all ordered pairs of the grammatical strings of length <= 5 over {0 1 9 - . e E +}, plus random pairs with up to 46 mantissa digits and exponents up to 3000 (equal-by-shift, last-digit neighbours, unrelated), each compared both ways: Cmp/Equal/GT/GTE/LT/LTE vs exact decimal comparison (cross-checked with math/big.Rat for small exponents). distinct_nontrivial = distinct strings and pairs (hashed).",
 		MinNontrivialQuick: 200000, MinNontrivialThorough: 2000000,
 		Assumptions: []string{"reference: harness/internal/ref/decimal.go (exact normalised decimals) cross-checked against math/big.Rat", "exponents with more than 3000 in magnitude are only probed at a few fixed points (memory)"},
 		Exhaustive:  "all strings up to the stated length over the 9-byte alphabet; all ordered pairs of grammatical strings up to the stated length",
